@@ -165,8 +165,6 @@ def gen(
                 ),
                 extra_symbols,
             )
-            # This leaks to the global scope
-            globals().update(extra_symbols)
         with open(
             (
                 imports_from_file
